@@ -782,6 +782,24 @@ func c15Gen(c *hmain.Ctx) {
 		}
 	}
 
+	// ---- 6c. k8s huge: one line whose buffered partial chunks exceed 128 KiB (docker cuts container log lines into 16 KiB
+	//          chunks), then ordinary multi-chunk lines on the same action instance: state carried between lines
+	for i := 0; i < 3*c.Scale; i++ {
+		var seq []kch
+		big := strings.Repeat("0123456789abcdef", 1024) // 16 KiB
+		for j, n := 0, r.Range(8, 11); j < n; j++ {
+			seq = append(seq, cri(big))
+		}
+		seq = append(seq, cri("tail of the long line\n"))
+		for j, n := 0, r.Range(1, 3); j < n; j++ {
+			seq = append(seq, cri("hello "), cri("wor"), cri("ld\n"))
+			if r.Bool() {
+				seq = append(seq, cri("single\n"))
+			}
+		}
+		c.Do("k8s-huge", 2, hx.L(kCfg(0, 4*look, false, false, false), hx.List(seq, kSx)), true)
+	}
+
 	// ---- 7. k8s adversarial: missing / non-string log field, tiny max_event_size, only_node
 	lits := []string{"5", "12", "123", "true", "null", "-1.5"}
 	for i := 0; i < 1500*c.Scale; i++ {
